@@ -225,7 +225,20 @@ func (e *Env) classifyBlock(k model.BlockKey, st *Step, ctx *ThreadCtx) string {
 			kind = "del"
 		}
 		if ctx != nil && ctx.Op == "releasebyhandle" {
-			return fmt.Sprintf("ev=relh h=%d w=%s %s", ctx.Handle, kind, gc)
+			// the handle being released: the one every released slot belonged to
+			rh := -1
+			for _, o := range rel {
+				hid, err := strconv.Atoi(before.Slots[o][1:])
+				if err != nil || (rh >= 0 && rh != hid) {
+					return "ev=unknown"
+				}
+				rh = hid
+			}
+			return fmt.Sprintf("ev=relh h=%d w=%s %s", rh, kind, gc)
+		}
+		if ctx != nil && ctx.Op == "cniadd" {
+			// cmdAdd's dual-stack rollback: ReleaseIPs of the addresses just assigned, no handle given
+			return fmt.Sprintf("ev=release h=0 ords=%s w=%s %s", joinInts(rel), kind, gc)
 		}
 		if ctx != nil && ctx.Op == "releaseips" {
 			ords := append([]int(nil), ctx.ReqOrds[bid]...)
